@@ -38,9 +38,9 @@ claims = {
    text="Exhaustive enumeration of iteration histories: every placement of up to m (2 quick / 3 thorough) insertions and deletions between the calls of a full SCAN / HSCAN / SSCAN iteration, for every COUNT in {1,2,3,n,n+1,..}, with and without MATCH, over collections whose element names are picked with the dictionary's own hash function so that one insertion doubles the bucket table (16->32->64) and one deletion halves it (64->32->16) in the middle of the iteration (measured: histories_with_table_resize_mid_iteration). Oracle per history: every element present from start to end is returned, nothing absent during the whole iteration is returned, MATCH is honoured, the iteration returns to cursor 0 within a bounded number of calls after the last change.",
    note="Trusted: the harness's bookkeeping of always-present / ever-present elements; the optional private-state probe (table size) only feeds an evidence counter. Tables beyond 128 buckets and more than m mutations per iteration are not covered.",
    tech="exhaustive enumeration of bounded operation histories on the real implementation (stateless model checking of the iteration protocol)"),
- 'C09': dict(engine='seq', cat='model_checking', ref='DESIGN.md §3 C09',
-   text="Explicit-state BFS over all transaction programs up to 6 (quick) / 8 (thorough) tokens from {MULTI, EXEC, DISCARD, WATCH k, UNWATCH, SET, INCR (ok / runtime error), unknown command, bad arity, BLPOP 0, LPUSH, PING, SELECT 1} on one connection interleaved at command granularity with writes and reads of a second connection; every transition is replayed on the implementation and compared on reply, on the data of databases 0 and 1 seen by an observer connection, and on the connection's session record (MULTI flag, queue length, abort flag, watch count, database) through a private-state probe.",
-   note=E1_NOTE + " Interleavings below command granularity (EXEC vs. concurrent commands at lock level) belong to the scheduler engine (C08).", tech=E1_TECH),
+ 'C09': dict(engine='seq+explore', cat='model_checking', ref='DESIGN.md §3 C09',
+   text="Explicit-state BFS over all transaction programs up to 6 (quick) / 8 (thorough) tokens from {MULTI, EXEC, DISCARD, WATCH k, UNWATCH, SET, INCR (ok / runtime error), unknown command, bad arity, BLPOP 0, LPUSH, PING, SELECT 1} on one connection interleaved at command granularity with writes and reads of a second connection; every transition is replayed on the implementation and compared on reply, on the data of databases 0 and 1 seen by an observer connection, and on the connection's session record (MULTI flag, queue length, abort flag, watch count, database) through a private-state probe. Second part, at lock granularity: MULTI/EXEC transactions (plain, WATCHed, with LMOVE/LPUSH, FLUSHDB, SELECT inside, two competing EXECs, DISCARD) against concurrent observers (MGET twice) and writers, explored over all thread schedules with at most 2 / 3 preemptions; every execution must be linearizable with EXEC as a single operation (an observer never sees half a queue).",
+   note=E1_NOTE, tech=E1_TECH + " + stateless schedule exploration with preemption bounding (linearizability oracle)"),
  'C10': dict(engine='seq', cat='model_checking', ref='DESIGN.md §3 C10',
    text="Bounded exhaustive: for each watched key type (string, list, hash, set, missing, key with TTL) alone and all together: every writer of the emulator (~90: in place and replacing, every type, rename from/onto, copy onto, STORE forms, EXPIRE/PERSIST/GETEX, UNLINK, FLUSHDB/FLUSHALL, the clock passing a deadline), ~40 readers and ~30 failing writers, issued by the other and by the watching connection, before MULTI and between MULTI and EXEC, in database 0 and 1, each followed by a probe transaction whose EXEC must be null iff a watched key was modified; plus UNWATCH / DISCARD / EXEC / re-WATCH resets and ABA sequences.",
    note=E1_NOTE, tech=E1_TECH),
@@ -51,6 +51,10 @@ claims = {
    text="Exhaustive in bounds, two parts. (1) Differential: every command template of the emulator (the ~300-form matrix x 5 target key types, introspection commands, LCS IDX, HRANDFIELD WITHVALUES, transactions nesting every reply shape) x 5 corpus states, executed once on a RESP2 connection and once after HELLO 3 on fresh instances; the RESP2 reply must parse with RESP2 types only and equal the canonical down-conversion of the RESP3 reply (maps and pair lists flattened, sets as multisets, double/big number/verbatim as string, boolean as 0/1, null as nil). (2) State space of HELLO: BFS over all sequences (depth 3 / 4) of HELLO, HELLO 2/3/4/1/0/x, HELLO 3 SETNAME, malformed HELLO on two connections, probing both connections with HGETALL after every step (RESP2 connection must answer a flat array, RESP3 a map) and comparing each session record (proto, name) with the model.",
    note="Trusted: the harness's strict RESP parser and the down-conversion comparator. Replies built from Go maps (COMMAND LIST, CLIENT LIST) are compared order-insensitively; HELLO's own reply and the resp= field of CLIENT INFO legitimately differ between the two runs and are masked.",
    tech="differential exhaustive enumeration (RESP2 vs RESP3 runs of the implementation) + explicit-state BFS of protocol switching against the model"),
+ 'C08': dict(engine='explore', cat='model_checking', ref='DESIGN.md §3 C08',
+   text="Stateless model checking of the implementation: ~480 (quick) / ~1000 (thorough) scenarios - every unordered pair of commands (incl. self pairs) within the string, list, hash, set and generic families on colliding keys, every family command against multi-key generic commands (DEL a b, RENAME, FLUSHDB ...), and 3-connection / 2-commands-per-connection scenarios for MSET/MGET, RENAME, LMOVE, SMOVE, COPY, the STORE forms, BITOP, SELECT, plus MULTI/EXEC transactions against observers and writers - each explored over ALL thread schedules with at most 2 (quick) / 3 (thorough) preemptions, every lock, unlock-to-lock hand-over, CAS on the MULTI lock owner and atomic counter being a scheduling point. Oracle: linearizability by brute force - replies and final state must equal those of some total order (computed on the implementation itself, run sequentially) that respects each connection's order and the real-time precedence of the explored execution.",
+   note="Trusted: the cooperative scheduler shim (exactly one thread runs; mutex unlock is merged with the preceding step, which is sound because an unlock commutes with every step other threads can take), and the implementation's sequential behaviour as reference (checked against Redis semantics by C02-C07). Not covered: more preemptions than the bound, more than 3 connections, data races on plain memory (C16).",
+   tech="stateless model checking: exhaustive schedule enumeration with iterative preemption bounding on the real code, linearizability oracle"),
 }
 pending_reason = "check not built yet (work in progress in this session; see DESIGN.md build order)"
 
@@ -80,6 +84,7 @@ manifest = {
    "add_only": True
  },
  "engines": [
+   {"name": "explore", "path": "checks/mc/explore.go", "serves_properties": ["C08", "C09"], "kind_free_text": "E2: controlled scheduler + DFS by prefix replay, iterative preemption bounding, 16 worker processes"},
    {"name": "c15", "path": "checks/mc/c15.go", "serves_properties": ["C15"], "kind_free_text": "RESP2/RESP3 differential enumeration + HELLO state space"},
    {"name": "scan", "path": "checks/mc/scan.go", "serves_properties": ["C17"], "kind_free_text": "history enumeration for the SCAN family"},
    {"name": "seq", "path": "checks/mc/seq.go", "serves_properties": [i for i in ids if claims.get(i,{}).get('engine')=='seq'], "kind_free_text": "E1: explicit-state BFS over model states, transitions replayed on the implementation (16 worker processes)"},
